@@ -135,9 +135,9 @@ def run_and_validate(ctx, exe, texts, what, label, n=4, seed=1, pct=3, spurious=
     for attempt in (0, 1):
         final = attempt == 1
         tot, out = ctx.driver(exe, args, what, label=label, allow_incomplete=True, report=final)
-        if not os.path.exists(raw):
-            continue
-        annotate(raw, tr)
+        nlines = annotate(raw, tr) if os.path.exists(raw) else 0
+        if nlines == 0:
+            continue        # the driver crashed before it recorded anything (reported by ctx.driver on the final attempt)
         res = ctx.validate(SPEC, 'FutureTrace.tla', cfg_for(ctx, fixed), tr, what + ' [' + label + ']',
                            executions=tot.get('completed', 0), label=label, report=final)
         stalled = bool(tot) and tot.get('executions', 0) > tot.get('completed', 0) + tot.get('deadlocks', 0)
@@ -210,7 +210,8 @@ def cover_replay(ctx, exe, name, what, fixed=False):
     raw = os.path.join(ctx.work, 'raw_cover_%s.ndjson' % name)
     tot, _ = ctx.driver(exe, ['--out', raw, '--progs', progs, '--schedules', sched], what, label='cover replay ' + name)
     tr = os.path.join(ctx.work, 'tr_cover_%s.ndjson' % name)
-    annotate(raw, tr)
+    if not os.path.exists(raw) or annotate(raw, tr) == 0:
+        return tr       # the driver crashed before it recorded anything (already reported by ctx.driver)
     ctx.validate(SPEC, 'FutureTrace.tla', cfg_for(ctx, fixed), tr, what + ' [cover replay %s]' % name,
                  executions=tot.get('completed', 0), label='cover replay ' + name)
     cleanup()
